@@ -50,7 +50,15 @@ def build_cases(chk, tier):
             elif r < 0.93:
                 gens = [["lt"]]
             else:
-                gens = rng.choice([[["lt"], ["const"]], [["ty"]], [["lt"], ["ty"], ["const"]]])
+                gens = rng.choice([[["lt"], ["const"]], [["ty"]], [["lt"], ["ty"], ["const"]], [["ty", "bounded"]],
+                                   [["lt"], ["ty", "bounded"], ["const", "default"]]])
+            # defaults (trailing parameters only) on a third of the generic enums
+            if gens and rng.random() < 0.35:
+                gens = [list(g) for g in gens]
+                if gens[-1][0] != "lt":
+                    gens[-1].append("default")
+                    if len(gens) > 1 and gens[-2][0] == "ty" and rng.random() < 0.5:
+                        gens[-2].append("default")
             c = G.random_case(rng, "m%d" % k, t or "isize", attrs, gens)
             if c is None:
                 continue
@@ -66,6 +74,10 @@ def describe(chk, case):
     chk.bump("repr:" + (t if any(h in G.INTS for a in case["repr_attrs"] for h in a) else "none(isize)"))
     if case["generics"]:
         chk.bump("generic")
+        if any("default" in g[1:] for g in case["generics"]):
+            chk.bump("generic_with_defaulted_parameter")
+        if any("bounded" in g[1:] for g in case["generics"]) or case.get("where"):
+            chk.bump("generic_with_bounds_or_where")
     if any(not G.is_empty(v) for v in vs):
         chk.bump("has_variant_with_fields")
     if any(v["fields"] in ("tuple0", "brace0") for v in vs):
@@ -250,7 +262,8 @@ def build_and_run(chk, cases, name=CRATE):
 def classify_failure(case, diags):
     t = G.language_repr(case)
     codes = set(c for c, _, _ in diags)
-    if case["generics"] and codes & {"E0109", "E0107", "E0726"}:
+    if case["generics"] and (codes & {"E0109", "E0107", "E0726"} or
+                             any("default" in (m or "") and "parameter" in (m or "") for _, m, _ in diags)):
         return "generic-enum-header"
     if "E0080" in codes or any("overflow" in (m or "") for _, m, _ in diags):
         if any(v["discr"] is not None and not G.plus_safe(v["discr"]) for v in case["variants"]):
@@ -385,13 +398,13 @@ def run(tier, seed, replay):
         # header
         mp, mt, ms = header_strings(hdr, lrepr)
         # declared bounds / where-clause must reappear on the impl (the model does not carry bounds)
-        decl_params = [strip_ws(x) for x in G.generics_decl(c)[1:-1].split(",")] if c["generics"] else []
+        decl_params = [strip_ws(x) for x in G.generics_decl(c, for_impl=True)[1:-1].split(",")] if c["generics"] else []
         decl_where = [strip_ws(G.where_clause(c)[len("where"):])] if G.where_clause(c) else []
         if v["params"] != decl_params or v["where"] != decl_where:
             chk.violation("generic-enum-header", {"case": c, "rust": G.enum_item(c), "impl_params": v["params"], "impl_where": v["where"]},
                           "%s: the impl has parameters %s where %s" % (G.enum_item(c, False).replace("\n", " "), v["params"], v["where"]))
             predicted_header_bad.add(c["id"])
-        real_params_unbounded = [x if x.startswith("const") else x.split(":")[0] for x in v["params"]]
+        real_params_unbounded = [x.split("=")[0] if x.startswith("const") else x.split("=")[0].split(":")[0] for x in v["params"]]
         if (mp, mt, ms) != (real_params_unbounded, v["trait"], v["self"]):
             chk.violation("tie-model-header", {"case": c, "model": [mp, mt, ms], "code": [v["params"], v["trait"], v["self"]]},
                           "model and expander disagree on the impl header of %s" % c["id"])
